@@ -14,9 +14,9 @@ extract/model_driver: build/.coq_stamp extract/Extract.v extract/driver.ml
 	cd extract && coqc -Q ../coq MP Extract.v > /dev/null
 	cd extract && ocamlfind ocamlopt -w -a -package str model.mli model.ml driver.ml -o model_driver.tmp && mv -f model_driver.tmp model_driver
 # independent Coq developments (own _CoqProject) built if present
-SUBDIRS=coq_effects coq_qcheck
+SUBDIRS=coq_effects coq_qcheck coq_const coq_meta
 SUBV=$(foreach d,$(SUBDIRS),$(wildcard $(d)/*.v $(d)/_CoqProject))
-build/.sub_stamp: $(SUBV)
+build/.sub_stamp: $(SUBV) build/.coq_stamp
 	$(MAKE) subprojects
 	mkdir -p build && touch build/.sub_stamp
 subprojects:
